@@ -96,14 +96,17 @@ class CodemodRegistry:
             # Remove duplicates and preserve order
             return list(base_codemods.values())
 
-        matched_codemods = []
+        # Keyed by id so that a codemod matched more than once runs only once,
+        # at the position of its first match.
+        matched_codemods: dict[str, BaseCodemod] = {}
         for name in codemod_include:
             if "*" in name:
                 pat = _compile_glob(name)
                 pattern_matches = [
                     code for code in self.codemods if pat.fullmatch(code.id)
                 ]
-                matched_codemods.extend(pattern_matches)
+                for code in pattern_matches:
+                    matched_codemods.setdefault(code.id, code)
                 if not pattern_matches:
                     logger.warning(
                         "Given codemod pattern '%s' does not match any codemods.", name
@@ -111,10 +114,10 @@ class CodemodRegistry:
                 continue
 
             try:
-                matched_codemods.append(self._codemods_by_id[name])
+                matched_codemods.setdefault(name, self._codemods_by_id[name])
             except KeyError:
                 logger.warning(f"Requested codemod to include '{name}' does not exist.")
-        return matched_codemods
+        return list(matched_codemods.values())
 
     def describe_codemods(
         self,
